@@ -1,10 +1,164 @@
 /- line-protocol handlers for Model/HandColr.lean.  All commands are prefixed `hc.`. -/
 import FontVerif.Model.HandColr
+import FontVerif.Drv.C01Iter
 namespace FontVerif.Drv.C01HandColr
 open FontVerif FontVerif.ReadIter FontVerif.HandRead FontVerif.HandColr
 
+def errStr : CErr → String
+  | .nullOffset => "eNull"
+  | .oob => "eO"
+  | .invalidFormat f => s!"eF{f}"
+  | .badIndex i => s!"eI{i}"
+
+def resStr {α : Type} (f : α → String) : Res α → String
+  | .ok a => f a
+  | .err e => errStr e
+  | .trap => "trap"
+
+def optStr {α : Type} (f : α → String) : Option α → String
+  | none => "N"
+  | some a => f a
+
+def rangeStr (p : Nat × Nat) : String := s!"{p.1}-{p.2}"
+def atStr (p : Nat × Nat) : String := s!"f{p.1}@{p.2}"
+
+def joinStrs (xs : List String) : String := if xs.isEmpty then "-" else " ".intercalate xs
+
+/-- split a list at the first "|" -/
+def splitBar (xs : List String) : List String × List String :=
+  (xs.takeWhile (· ≠ "|"), (xs.dropWhile (· ≠ "|")).drop 1)
+
+def natsOrEmpty (xs : List String) : Option (List Nat) := if xs = ["-"] then some [] else parseNats? xs
+
+/-- drop adjacent duplicates of a sorted list -/
+def dedupSorted : List Nat → List Nat
+  | a :: b :: r => if a = b then dedupSorted (b :: r) else a :: dedupSorted (b :: r)
+  | l => l
+
+/-- an `IntSet` as the harness renders it: `<len> <fnv of the members in increasing order>` -/
+def setStr (xs : List Nat) : String :=
+  let s := dedupSorted (xs.mergeSort (· ≤ ·))
+  s!"{s.length} {Drv.C01Iter.fnv s}"
+
+def expand (rs : List (Nat × Nat)) : List Nat :=
+  rs.flatMap (fun r => List.range' r.1 (r.2 + 1 - r.1))
+
 def handle (cmd : String) (args : List String) : Option String :=
   match cmd, args with
+  | "hc.colr", hex :: rest =>
+    -- `<gids> | <layer indices>`: per gid `v0_base_glyph,v1_base_glyph,v1_clip_box`, per index `v0_layer,v1_layer`
+    let (gidsS, idxS) := splitBar rest
+    match parseHex? hex, natsOrEmpty gidsS, natsOrEmpty idxS with
+    | some d, some gids, some idxs =>
+      match colrRead d with
+      | none => some "rerr"
+      | some t =>
+        let a := gids.map (fun g =>
+          s!"{resStr (optStr rangeStr) (v0BaseGlyph t g)},{resStr (optStr atStr) (v1BaseGlyph t g)},{resStr (optStr atStr) (v1ClipBox t g)}")
+        let b := idxs.map (fun i =>
+          s!"{resStr (fun (l : Layer) => s!"{l.gid}:{l.pal}") (v0Layer t i)},{resStr atStr (v1Layer t i)}")
+        some (joinStrs a ++ " | " ++ joinStrs b)
+    | _, _, _ => none
+  | "hc.clos", hex :: gids =>
+    -- `v0_closure_glyphs | v0_closure_palette_indices | v1_closure: glyphs | layers | palettes | variations`
+    match parseHex? hex, natsOrEmpty gids with
+    | some d, some gids =>
+      match colrRead d with
+      | none => some "rerr"
+      | some t =>
+        let v0 := match v0ClosureGlyphs t gids, v0ClosurePalettes t gids with
+          | some g, some p => s!"{setStr g} | {setStr p}"
+          | _, _ => "trap"
+        let r := v1ClosureOf t gids
+        let c := r.1
+        let v1 := if c.starved then "fuel"
+          else if c.trap then "trap"
+          else s!"{setStr r.2} | {setStr (expand c.layers)} | {setStr c.palettes} | {setStr (expand c.vars)}"
+        some s!"{v0} | {v1}"
+    | _, _ => none
+  | "hc.svg", hex :: gids =>
+    match parseHex? hex, natsOrEmpty gids with
+    | some d, some gids =>
+      some (joinStrs (gids.map (fun g =>
+        match svgGlyphData d g with
+        | none => "rerr"
+        | some r => resStr (optStr rangeStr) r)))
+    | _, _ => none
+  | "hc.hdmx", ng :: hex :: sizes =>
+    match ng.toNat?, parseHex? hex, natsOrEmpty sizes with
+    | some ng, some d, some sizes =>
+      match hdmxRead d ng with
+      | none => some "rerr"
+      | some a =>
+        some (s!"{a.len} " ++ joinStrs (sizes.map (fun s =>
+          match hdmxRecordForSize a s with
+          | none => "fuel"
+          | some (r, _) => resStr (optStr toString) r)))
+    | _, _, _ => none
+  | "hc.vorg", hex :: gids =>
+    match parseHex? hex, natsOrEmpty gids with
+    | some d, some gids =>
+      match vorgRead d with
+      | none => some "rerr"
+      | some (recs, dflt) => some (joinStrs (gids.map (fun g => toString (vorgY recs dflt g))))
+    | _, _ => none
+  | "hc.meta", [hex] =>
+    match parseHex? hex with
+    | none => none
+    | some d =>
+      match metaRead d with
+      | none => some "rerr"
+      | some recs =>
+        some (joinStrs (recs.map (fun r =>
+          match metaData d.length r.2.1 r.2.2 (isLangTag r.1) with
+          | .ok (a, b, l) => s!"{a}-{b}{if l then "L" else "O"}"
+          | .error e => errStr e)))
+  | "hc.cksum", [hex] =>
+    match parseHex? hex with
+    | none => none
+    | some d => some (toString (computeChecksum d).1)
+  | "hc.arr", count :: hex :: idxs =>
+    -- `AxisValueArray::read(data, count).axis_values()`: `ArrayOfOffsets<AxisValue, Offset16>`
+    match count.toNat?, parseHex? hex, natsOrEmpty idxs with
+    | some n, some d, some idxs =>
+      if n * 2 ≤ d.length then
+        let offs := records (fun p => be d p 2) 0 n 2
+        let read := fun (p : Nat) =>
+          match readAt d p 2 with
+          | none => Except.error CErr.oob
+          | some fmt =>
+            if fmt = 1 then (if p + 12 ≤ d.length then .ok fmt else .error .oob)
+            else if fmt = 2 then (if p + 20 ≤ d.length then .ok fmt else .error .oob)
+            else if fmt = 3 then (if p + 16 ≤ d.length then .ok fmt else .error .oob)
+            else if fmt = 4 then
+              (match readAt d (p + 2) 2 with
+               | none => .error .oob
+               | some k => if p + 8 + k * 6 ≤ d.length then .ok fmt else .error .oob)
+            else .error (.invalidFormat fmt)
+        let show_ := fun (r : Except CErr Nat) => match r with | .ok f => s!"f{f}" | .error e => errStr e
+        let its := arrIter offs d.length read
+        some (s!"{its.length} " ++ joinStrs (its.map show_) ++ " | " ++ joinStrs (idxs.map (fun i => show_ (arrGet offs d.length read i))))
+      else some "rerr"
+    | _, _, _ => none
+  | "hc.arrn", hex :: idxs =>
+    -- `SequenceContextFormat1::read(data).seq_rule_sets()`: `ArrayOfNullableOffsets<SequenceRuleSet, Offset16>`
+    match parseHex? hex, natsOrEmpty idxs with
+    | some d, some idxs =>
+      match readAt d 4 2 with
+      | none => some "rerr"
+      | some n =>
+        if 6 + n * 2 ≤ d.length then
+          let offs := records (fun p => be d p 2) 6 n 2
+          let read := fun (p : Nat) =>
+            match readAt d p 2 with
+            | none => Except.error CErr.oob
+            | some k => if p + 2 + k * 2 ≤ d.length then .ok k else .error .oob
+          let show_ := fun (r : Option (Except CErr Nat)) => match r with
+            | none => "N" | some (.ok k) => s!"ok{k}" | some (.error e) => errStr e
+          let its := arrIterNullable offs d.length read
+          some (s!"{its.length} " ++ joinStrs (its.map show_) ++ " | " ++ joinStrs (idxs.map (fun i => show_ (arrGetNullable offs d.length read i))))
+        else some "rerr"
+    | _, _ => none
   | _, _ => none
 
 end FontVerif.Drv.C01HandColr
